@@ -6,4 +6,10 @@ CHECKS = {
                 text="Every clause of C11 is a postcondition or lemma over contracts of the real pydrex.tensors functions, proved for all symbolic inputs (all 81/36 index tuples enumerated by the code's own loops): index maps, inverses, isometry, transformation law, group action, projector algebra and class-projector characterisation, polar decomposition under the SVD contract, invariants. Proof is the right level: the functions are loop-bounded polynomial maps.",
                 note=COMMON_NOTE + "A-QUAT (rotations/orthogonal matrices parametrised by quaternions), A-EIG (SVD contract: M = U diag(S) Vh, orthogonal factors, S >= 0). polar_decompose(left=False) (matrix inverse) is only covered by the bounded stand-in."),
 }
+CHECKS["C02"] = dict(category="proof", technique="contract-based deductive verification (modular): every pydrex.core helper proved equal to its tensor-form spec, per-grain solver proved equal to an independent transcription of the published D-Rex equations by a chain of per-call lemmas over contract stubs, derivatives with symbolic n_grains (map rule + Sigma terms); z3/cvc5",
+    text="For all six (phase, fabric) pairs, every feasible path of the per-grain solver (activity orders enumerated through the argsort contract) and symbolic grain count: rates == published equations, as obligations generated from the real code objects. Bounded stand-ins (labelled): compiled solver vs oracle on random inputs, JIT vs interpreted differential.",
+    note=COMMON_NOTE + "A-POW (uninterpreted power/exp with named axioms), A-SIGMA (sum laws, Lean). The oracle specs/drex_published.py is a hand transcription of the papers (trusted as the statement of C02).")
+CHECKS["C03"] = dict(category="proof", technique="contract-based deductive verification: safety obligations (division, domain, callee preconditions) on every path of the modular per-grain solver, skew facet with quaternion-parametrised rotations, Sigma-law lemma for zero net volume change with symbolic n_grains; z3/cvc5; Lean for the sum laws",
+    text="No reference formula: the code's own outputs are proved skew/zero-sum/linear/finite for all inputs: 6 fabrics, all paths, n_grains symbolic. Bounded stand-in (labelled): native sweep of the compiled solver incl. axis-aligned and zero-volume grains.",
+    note=COMMON_NOTE + "A-QUAT, A-SIGMA, A-POW.")
 NOT_APPLICABLE = {}
